@@ -17,6 +17,7 @@ fn profile(thorough: bool) -> Profile {
         keygen: 10,
         refresh: 8,
         encaps: 8,
+        encaps_wide: 3,
         encaps_for: 12,
         check: 5,
         roundtrip: 7,
